@@ -798,6 +798,11 @@ func (a *availCtx) leaf(f *MFn, l MLeaf) bool {
 		return ok
 	}
 	if d := m.NearestDeco(f.View, l.Key, self); d != nil {
+		if !m.AnyProvider(f.View, l.Key) {
+			// a decorator is not a constructor (what happens once such a
+			// decorator has produced a value is a zone, see ZonesOf)
+			return false
+		}
 		return a.fn(d)
 	}
 	if p := m.NearestProvider(f.View, l.Key); p != nil {
@@ -942,7 +947,16 @@ func (m *Model) ZonesOf(f *MFn) Zones {
 				}
 			} else if d := m.NearestDeco(g.View, l.Key, self); d != nil {
 				if !m.AnyProvider(g.View, l.Key) {
-					z.DecoNoProvider = true
+					// A decorator is not a constructor: a *required*
+					// dependency on the key is simply missing (C04) as
+					// long as the decorator cannot have produced a value
+					// - it has not run, and nothing in this resolution can
+					// make it run (an optional request for the key, or a
+					// request for another key of a multi-key decorator).
+					// Everything else about such keys is unspecified.
+					if l.Opt || d.Execs > 0 || m.decoHasProvidedKey(d) {
+						z.DecoNoProvider = true
+					}
 				}
 				if l.Opt {
 					if ok, _ := m.Available(d); !ok {
@@ -957,6 +971,22 @@ func (m *Model) ZonesOf(f *MFn) Zones {
 	}
 	visit(f)
 	return z
+}
+
+// decoHasProvidedKey: some key of decorator d has a constructor somewhere.
+func (m *Model) decoHasProvidedKey(d *MFn) bool {
+	ks := d.Keys()
+	if len(ks) <= 1 {
+		return false
+	}
+	for _, k := range ks {
+		for _, c := range m.AllCtors() {
+			if k.Group == "" && c.SlotFor(k) >= 0 {
+				return true
+			}
+		}
+	}
+	return false
 }
 
 // sortedIDs is a helper for messages.
